@@ -251,6 +251,9 @@ func (st *State) load(x *Exec, p SV) SV {
 		out = append(out, t)
 	}
 	v := SV{ty: li.ty, l: out}
+	if _, isChan := li.ty.Underlying().(*types.Chan); isChan && li.hi-li.lo == 1 {
+		v.chanKey = li.rootKey + li.leaves[li.lo].path
+	}
 	x.wf(st, v)
 	return v
 }
